@@ -1,6 +1,7 @@
 package props
 
 import (
+	"bytes"
 	"errors"
 	"fmt"
 	"io"
@@ -38,7 +39,7 @@ type C08Scenario struct {
 
 func (s *C08Scenario) SchedPtr() *[]int { return &s.Sched }
 
-var c08Subjects = []string{"rowgroup", "reader", "generic", "multi", "pages", "values", "buffer", "rgreader", "merged-pages"}
+var c08Subjects = []string{"rowgroup", "reader", "generic", "multi", "pages", "values", "buffer", "rgreader", "merged-pages", "column-pages"}
 
 type C08 struct{}
 
@@ -74,6 +75,7 @@ func (C08) Gen(t *tape.Tape, tier string) any {
 	}
 	sc.Pools = GenPoolPolicy(t)
 	sc.F = gen.GenFOpts(t)
+	sc.F.SkipPageIndex = t.Bool()
 	sc.Subject = c08Subjects[t.Draw(len(c08Subjects))]
 	if t.Chance(1, 5) {
 		sc.F.Async = true
@@ -83,8 +85,29 @@ func (C08) Gen(t *tape.Tape, tier string) any {
 	sc.RowGroup = t.Draw(4)
 	sc.Column = t.Draw(16)
 	sc.Ops = genSeekOps(t, int64(sc.Plan.NRows), t.Range(3, 30))
+	if sc.F.SkipPageIndex {
+		// the offset index appears in the middle of the history (with SkipPageIndex
+		// it is loaded by whoever asks first): seek and read without it, load it,
+		// seek a little further - often into the page after the one just read
+		if t.Bool() {
+			sc.Subject = []string{"pages", "values"}[t.Draw(2)]
+		}
+		k := int64(t.Draw(sc.Plan.NRows + 1))
+		pre := []SeekOp{{Op: "seek", K: k}, {Op: "read", N: []int{1, 7, 64}[t.Draw(3)]}, {Op: "index"}}
+		k2 := min(k+int64([]int{1, 2, 3, 5, 8, 13, 20, 40, 64, 65, 70, 100, 130, 200, 400}[t.Draw(15)]), int64(sc.Plan.NRows))
+		pre = append(pre, SeekOp{Op: "seek", K: k2}, SeekOp{Op: "read", N: 7})
+		sc.Ops = append(pre, sc.Ops...)
+	}
 	return sc
 }
+
+// columnAsChunk lets the column chunk history run on Column.Pages().
+type columnAsChunk struct {
+	parquet.ColumnChunk
+	col *parquet.Column
+}
+
+func (c columnAsChunk) Pages() parquet.Pages { return c.col.Pages() }
 
 // genSeekOps draws a seek/read history over n rows.
 func genSeekOps(t *tape.Tape, n int64, nops int) []SeekOp {
@@ -171,11 +194,16 @@ func (C08) Run(s any, c *core.Ctx) core.Outcome {
 		if len(rgs) == 0 {
 			return
 		}
+		// page counts for the non-triviality measure come from another File value:
+		// asking the file under test would load its offset indexes, and with
+		// SkipPageIndex their lazy loading in the middle of a history is an input
 		maxPages = 0
-		for _, rg := range rgs {
-			for _, cc := range rg.ColumnChunks() {
-				if oi, err := cc.OffsetIndex(); err == nil && oi != nil && oi.NumPages() > maxPages {
-					maxPages = oi.NumPages()
+		if pf, err := parquet.OpenFile(bytes.NewReader(fileBytes), int64(len(fileBytes))); err == nil {
+			for _, rg := range pf.RowGroups() {
+				for _, cc := range rg.ColumnChunks() {
+					if oi, err := cc.OffsetIndex(); err == nil && oi != nil && oi.NumPages() > maxPages {
+						maxPages = oi.NumPages()
+					}
 				}
 			}
 		}
@@ -223,6 +251,23 @@ func (C08) Run(s any, c *core.Ctx) core.Outcome {
 			ccs := rgs[g].ColumnChunks()
 			ci := sc.Column % len(ccs)
 			out.Violation = c08ColumnOps(c, sc.Subject, ccs[ci], ci, rgModel, clampOps(len(rgModel)), &back, &served)
+		case "column-pages":
+			// Column.Pages(): one page reader over the column's chunks of all row groups
+			paths := f.Schema().Columns()
+			ci := sc.Column % len(paths)
+			col := f.Root()
+			for _, name := range paths[ci] {
+				if col = col.Column(name); col == nil {
+					break
+				}
+			}
+			if col == nil {
+				break
+			}
+			out.Violation = c08ColumnOps(c, "pages", columnAsChunk{ColumnChunk: rgs[0].ColumnChunks()[ci], col: col}, ci, model, sc.Ops, &back, &served)
+			if out.Violation != nil {
+				out.Violation.Class += "/column"
+			}
 		}
 
 		nrgs = len(rgs)
